@@ -114,7 +114,7 @@ def NameTarget.ty : NameTarget → Ty
   | .newtype n c => .newtype n c
   | .bare c => rtBare c
   | .anyT => .any
-  | .opaque k => .typed (1000 + k)
+  | .opaque k => rtCls (1000 + k)
 
 /-- `UnpackedValue.get_elements` (value.py:2663) followed by the fallback of
 `_make_sequence_value` :1294 (`elements is None` → one error, `[(True, Any)]`). -/
